@@ -33,6 +33,41 @@ def root_ref(e):
     return e if isinstance(e, dict) else None
 
 
+def _automatic_only(prog, cls):
+    """True iff every object of class `cls` is a non-static local variable"""
+    import re
+    pat = re.compile(r"(?<![\w])%s(?![\w])" % re.escape(cls.split("::")[-1]))
+    for r in prog.records.values():
+        if any(pat.search(fl.get("t", "")) for fl in r.get("fields", [])):
+            return False
+        if any(pat.search(b if isinstance(b, str) else b.get("q", "")) for b in r.get("bases", [])):
+            return False
+    for g in prog.globals.values():
+        if pat.search(g.get("t", "")):
+            return False
+    for f in prog.funcs.values():
+        body = f.get("body")
+        if body is None:
+            continue
+        ok_ctor = set()
+        for x in walk(body):
+            if x.get("k") == "decl":
+                for v in x["vars"]:
+                    if v.get("t") == cls or pat.fullmatch(v.get("t", "")):
+                        if v.get("static"):
+                            return False
+                        if isinstance(v.get("init"), dict):
+                            ok_ctor.add(id(v["init"]))
+        for x in walk(body):
+            if x.get("k") == "ctor" and pat.search(x.get("c", "")) and id(x) not in ok_ctor:
+                return False
+            if x.get("k") == "new" and pat.search(str(x.get("t", ""))):
+                return False
+            if x.get("k") == "call" and "<" in (x.get("f") or "") and pat.search(x["f"].split("<", 1)[1]):
+                return False
+    return True
+
+
 def q1(prog):
     inst, findings = [], []
     # (i) mutable members / const_cast of this in protocol classes
@@ -87,8 +122,10 @@ def q1(prog):
                 writes.append((f, x, r))
     inst.append(("Q1ii:global-writes", {"functions_scanned": n_scan, "writes_found": len(writes)}))
     # balanced counters: a static integer whose ONLY writes are one `++` in a constructor and one `--` in the destructor of the
-    # same class.  Every scope that raises it lowers it again on every exit (also when unwinding), so no call can observe what an
-    # earlier, finished call did: it measures nesting depth, it does not remember.  (Recursion-depth guards are written this way.)
+    # same class, and that class is only ever instantiated as a local variable (automatic storage).  Every scope that raises it lowers
+    # it again on every exit (also when unwinding), so no call can observe what an earlier, finished call did: it measures nesting depth
+    # of C++ frames, it does not remember.  (Recursion-depth guards are written this way.)  A guard that is a member of another object, a
+    # base class, or heap-allocated lives as long as that object - in a pull-based engine across zw_result_next calls - and is NOT exempt.
     by_var = {}
     for f, x, r in writes:
         by_var.setdefault(r.get("id"), []).append((f, x))
@@ -98,7 +135,7 @@ def q1(prog):
             continue
         ops = sorted((x.get("op"), f.get("cls"), f["n"]) for f, x in ws)
         (o1, c1, n1), (o2, c2, n2) = ops
-        if o1 == "++" and o2 == "--" and c1 and c1 == c2 and n2 == "~" + n1:
+        if o1 == "++" and o2 == "--" and c1 and c1 == c2 and n2 == "~" + n1 and _automatic_only(prog, c1):
             balanced.add(vid)
     inst.append(("Q1ii:balanced-counters", {"exempt_by_structure": len(balanced)}))
     for f, x, r in writes:
